@@ -16,12 +16,12 @@ def _ec(i):
     return d
 
 
-def gen_call(rng, tok, cid='a', kinds=None, invalid_p=0.1):
+def gen_call(rng, tok, cid='a', kinds=None, invalid_p=0.1, version=None):
     """One call descriptor (a JSON-able dict)."""
     kinds = kinds or ['parse_message', 'parse_message', 'parse_message', 'parse_segment', 'parse_segment',
                       'parse_field', 'factory', 'build', 'build', 'parse_component']
     kind = rng.choice(kinds)
-    version = rng.choice(T.VERSIONS)
+    version = version or rng.choice(T.VERSIONS)
     level = rng.choice([STRICT, TOLERANT, TOLERANT])
     eci = rng.choice([0, 0, 0, 1, 2, 3])
     ec = ECS[eci]
